@@ -205,7 +205,7 @@ func run(c Case, clean []byte, frames []frameInfo) (sig, msg string, r result) {
 	// whatever happened: anything delivered must be exactly what the sender compressed
 	for mid, copies := range sb.Box.Inbox {
 		for _, cp := range copies {
-			if mid == c.MID && jerr == nil && bytes.Equal(cp, judged) {
+			if mid == c.MID && jerr == nil && bytes.Equal(cp, judged) && !bytes.Equal(cp, sa.Bytes[mid]) {
 				// the altered frame is fully valid for the independent reference too and decodes to exactly
 				// these bytes (a CRC-16 collision: about 2^-16 of the enumerated CRC-field alterations) - the
 				// property excludes "alterations an independent B2F/LZHUF reference also accepts as fully valid"
@@ -241,6 +241,22 @@ func genScenario(t *rapid.T) scen.Scenario {
 	sc.B = scen.Side{Call: "N0CALL", Sched: gen.Schedule(t, "schedB"), Batched: rapid.Bool().Draw(t, "batchedB")}
 	n := rapid.IntRange(1, 2).Draw(t, "n")
 	big := harness.Scale(300, 1500)
+	if rapid.IntRange(0, 3).Draw(t, "fill_boundary") == 0 {
+		// one message whose LZHUF stream ends exactly on a 4096-byte boundary of the decoder's input buffer
+		// (compressed size 6 + k*4096) or one byte off: surplus bytes after it are invisible to a reader that
+		// only checksums what it has pulled in. Judged with the structural and sampled alterations only.
+		sc.Gzip = false
+		spec := msggen.Gen(t, used, "LA5NTA", "N0CALL", 200)
+		spec.Files, spec.Body = nil, ""
+		sm := gen.NewSM(rapid.Uint64().Draw(t, "fill_seed"))
+		spec.RawBody = make([]byte, 3600+sm.Intn(300))
+		for i := range spec.RawBody {
+			spec.RawBody[i] = byte(sm.Next())
+		}
+		spec.Tune(4096, []int{6, 6, 5, 7}[rapid.IntRange(0, 3).Draw(t, "fill_res")])
+		sc.A.Queue = append(sc.A.Queue, spec)
+		return sc
+	}
 	for i := 0; i < n; i++ {
 		spec := msggen.Gen(t, used, "LA5NTA", "N0CALL", big)
 		if len(spec.RawBody) > big {
@@ -276,10 +292,18 @@ func TestProp(t *testing.T) {
 			for _, o := range f.parsed.StructOffsets {
 				structural[f.start+o] = true
 			}
+			bigFrame := f.end-f.start > 2000
+			nBytes := 0
 			for off := f.start; off < f.end; off++ {
+				if bigFrame && !structural[off] && sm.Intn(12) != 0 {
+					continue // big frames: structural bytes completely, every 12th other byte (seeded)
+				}
+				nBytes++
 				orig := clean[off]
 				vals := []byte{orig + 1, orig ^ 0x80, byte(sm.Next())}
-				if structural[off] {
+				// all 255 values at structural bytes; in big frames only at the frame header, the first two and the
+				// last two blocks' STX/length bytes, EOT and checksum (the other block headers get the three values)
+				if structural[off] && (!bigFrame || off < f.start+2+int(f.parsed.LenByte)+2*(2+125) || off >= f.end-2-2*(2+125)) {
 					vals = vals[:0]
 					for v := 0; v < 256; v++ {
 						vals = append(vals, byte(v))
@@ -297,12 +321,69 @@ func TestProp(t *testing.T) {
 			}
 			// checksum-compensating pairs inside the data blocks
 			var dataOffs []int
+			var hdrOffs []int // offset of the STX byte of every block
 			pos := f.start + 2 + int(f.parsed.LenByte)
 			for _, n := range f.parsed.Chunks {
+				hdrOffs = append(hdrOffs, pos)
 				for k := 0; k < n; k++ {
 					dataOffs = append(dataOffs, pos+2+k)
 				}
 				pos += 2 + n
+			}
+			eot := pos // offset of the EOT byte
+			// structural, checksum-neutral alterations of the block sequence (the 8-bit block checksum cannot see
+			// them; the declared compressed length, and for content changes the CRC-16, must)
+			nStruct := len(alts)
+			zeroSum := [][]byte{{0}, {0x5A, 0xA6}, {1, 2, 0xFD}}
+			insBlock := func(at int, data []byte) {
+				ed := []stream.Edit{{Off: int64(at), Kind: "ins", Val: b2f.STX}, {Off: int64(at), Kind: "ins", Val: byte(len(data))}}
+				for _, b := range data {
+					ed = append(ed, stream.Edit{Off: int64(at), Kind: "ins", Val: b})
+				}
+				alts = append(alts, ed)
+			}
+			if len(hdrOffs) > 0 {
+				for _, z := range zeroSum {
+					insBlock(eot, z)        // an extra block in front of EOT
+					insBlock(hdrOffs[0], z) // an extra block in front of the first block
+					// the last / first block made longer by len(z) bytes that sum to zero
+					for _, h := range []int{hdrOffs[len(hdrOffs)-1], hdrOffs[0]} {
+						n := int(clean[h+1])
+						if n == 0 || n+len(z) > 255 {
+							continue
+						}
+						end := h + 2 + n // first byte after the block's data
+						ed := []stream.Edit{{Off: int64(h + 1), Kind: "sub", Val: byte(n + len(z))}}
+						for _, b := range z {
+							ed = append(ed, stream.Edit{Off: int64(end), Kind: "ins", Val: b})
+						}
+						alts = append(alts, ed)
+					}
+				}
+				// the last block shortened by its final byte, the sum repaired in the byte before
+				if h := hdrOffs[len(hdrOffs)-1]; int(clean[h+1]) > 2 {
+					n := int(clean[h+1])
+					last := h + 2 + n - 1
+					alts = append(alts, []stream.Edit{{Off: int64(h + 1), Kind: "sub", Val: byte(n - 1)}, {Off: int64(last), Kind: "del"}, {Off: int64(last - 1), Kind: "sub", Val: clean[last-1] + clean[last]}})
+				}
+				// two neighbouring blocks of equal length exchanged (sum unchanged, content changed)
+				if len(hdrOffs) > 2 && clean[hdrOffs[0]+1] == clean[hdrOffs[1]+1] {
+					n := int(clean[hdrOffs[0]+1])
+					var ed []stream.Edit
+					for k := 0; k < n; k++ {
+						a, b := hdrOffs[0]+2+k, hdrOffs[1]+2+k
+						if clean[a] != clean[b] {
+							ed = append(ed, stream.Edit{Off: int64(a), Kind: "sub", Val: clean[b]}, stream.Edit{Off: int64(b), Kind: "sub", Val: clean[a]})
+						}
+					}
+					if len(ed) > 0 {
+						alts = append(alts, ed)
+					}
+				}
+			}
+			structuralAlts := map[int]bool{}
+			for i := nStruct; i < len(alts); i++ {
+				structuralAlts[i] = true
 			}
 			pair := func(i, j int, d byte) {
 				alts = append(alts, []stream.Edit{{Off: int64(i), Kind: "sub", Val: clean[i] + d}, {Off: int64(j), Kind: "sub", Val: clean[j] - d}})
@@ -349,17 +430,25 @@ func TestProp(t *testing.T) {
 				}
 			}
 			nsamp := 0
-			for _, edits := range alts {
+			for ai, edits := range alts {
 				c := Case{Sc: sc, Edits: edits, MID: f.mid}
 				harness.Begin(c)
 				sig, msg, r := run(c, clean, frames)
 				harness.End()
 				harness.Eval()
 				kind := edits[0].Kind
-				if len(edits) == 2 {
+				if structuralAlts[ai] {
+					kind = "structural(block inserted/lengthened/shortened/exchanged, sum preserved)"
+				} else if len(edits) == 2 {
 					kind = "sum-preserving-pair"
 				} else if len(edits) == 3 {
 					kind = "sum-preserving-triple(crc-field)"
+				}
+				if bigFrame {
+					harness.Label("frame>2000-bytes(sampled byte alterations)")
+				}
+				if f.csize%4096 == 6 {
+					harness.Label("compressed-size==6+k*4096")
 				}
 				harness.Label("alteration:" + kind)
 				if r.judgeRejects {
